@@ -33,10 +33,10 @@ func (wc *WrapperCollection) Len() int {
 
 // At returns the resource at the given index.
 //
-// It returns nil if the index is greater than the number of resources in the
-// collection.
+// It returns nil if the index is negative or not less than the number of
+// resources in the collection.
 func (wc *WrapperCollection) At(i int) Resource {
-	if len(wc.col) > i {
+	if i >= 0 && len(wc.col) > i {
 		return wc.col[i]
 	}
 
